@@ -86,7 +86,7 @@ async fn scenario(sim: Arc<Sim>, unit: Value) -> Obs {
     let t3 = sim.start(&NodeSpec::new(14).config(quiet_cfg())).unwrap();
     let t5 = sim.start(&NodeSpec::new(16).config(quiet_cfg())).unwrap();
     // black-hole addresses: bound (so nobody else gets them) but not attached to the fabric
-    let holes: Vec<std::net::UdpSocket> = (0..3).map(|_| std::net::UdpSocket::bind("127.0.0.1:0").unwrap()).collect();
+    let holes: Vec<std::net::UdpSocket> = (0..4).map(|_| std::net::UdpSocket::bind("127.0.0.1:0").unwrap()).collect();
     let hole = |i: usize| holes[i].local_addr().unwrap();
     let x = sim.start(&NodeSpec::new(10).config(cfg(&unit))).unwrap();
     let t_start = sim.now_us();
@@ -141,6 +141,15 @@ async fn scenario(sim: Arc<Sim>, unit: Value) -> Obs {
             while let Ok(e) = rx.recv().await {
                 events.lock().unwrap().push((sim2.now_us(), e));
             }
+        });
+    }
+    // explicit dials to a silent address made by the application while all this goes on: they are
+    // not subject to the cap themselves, but they are connections being established
+    for at_ms in unit["explicit_at_ms"].as_array().cloned().unwrap_or_default() {
+        let (x2, addr, at) = (x.clone(), hole(3), at_ms.as_u64().unwrap());
+        tokio::spawn(async move {
+            tokio::time::sleep(ms(at)).await;
+            let _ = x2.connect(addr).await;
         });
     }
     // drive the schedule
@@ -314,9 +323,14 @@ async fn scenario(sim: Arc<Sim>, unit: Value) -> Obs {
             }
         }
     }
-    // cap: attempts in progress at any attempt start must be below the cap
+    // cap: attempts in progress at the start of any BACKGROUND attempt must be below the cap
+    // (explicit dials count as in progress but may start at any time)
+    let explicit_spans: Vec<(u64, u64)> = attempts.iter().filter(|(_, a)| *a == hole(3)).map(|(t, _)| (*t, *t + CONNECT_TIMEOUT_US)).collect();
+    if unit["explicit_at_ms"].as_array().map(|a| a.len()).unwrap_or(0) != explicit_spans.len() {
+        viol!("setup", "{cfgs} {} explicit dials were observed on the wire", explicit_spans.len());
+    }
     for (i, (s, _)) in spans.iter().enumerate() {
-        let in_progress = spans.iter().enumerate().filter(|(j, (a, b))| *j != i && *a < *s && *s < *b).count();
+        let in_progress = spans.iter().enumerate().filter(|(j, (a, b))| *j != i && *a < *s && *s < *b).count() + explicit_spans.iter().filter(|(a, b)| *a < *s && *s < *b).count();
         if in_progress >= cap {
             viol!("cap-exceeded", "{cfgs} an attempt started at {} us while {} others were in progress (cap {cap})", s, in_progress);
         }
@@ -388,7 +402,7 @@ impl Check for C13 {
         CheckMeta {
             property: "C13",
             level: "exploration",
-            rule: "configurations (interval x jitter x back-off step x max back-off x in-flight cap) x known-peer table variants (High with 1/2/3 addresses incl. black holes, Allowed, Never, self, address-less, already connected) x reachability schedules of a High target (up/down toggles from a menu of instants), each run for 60-120 virtual seconds; attempts read from the fabric; distinct = distinct (attempt count, failure count, final connectivity); plus a sweep of the back-off arithmetic".into(),
+            rule: "configurations (interval x jitter x back-off step x max back-off x in-flight cap) x known-peer table variants (High with 1/2/3 addresses incl. black holes, Allowed, Never, self, address-less, already connected) x reachability schedules of a High target (up/down toggles from a menu of instants), each run for 60-120 virtual seconds; small caps also with explicit dials to a silent address in flight (they hold slots); attempts read from the fabric; distinct = distinct (attempt count, failure count, final connectivity); plus a sweep of the back-off arithmetic".into(),
             assumptions: vec!["tick instants are start + n*(interval + jitter) with the jitter pinned through the hook (values 0 and 900 ms)".into(), "connect timeout 1.5 s so that a dial to a black hole lasts exactly that long".into()],
             exhaustive: true,
         }
@@ -438,6 +452,21 @@ impl Check for C13 {
                                     u.push(json!({"kind":"run","interval_ms":interval,"jitter_ms":jitter,"step_ms":step,"max_ms":max,"cap":cap,"table":table,"schedule":sc,"horizon_s": if interval == 1_000 { 70 } else { 120 }}));
                                 }
                             }
+                        }
+                    }
+                }
+            }
+        }
+        // explicit dials to a silent address holding slots of a small cap
+        for interval in [1_000u64, 5_000] {
+            for cap in [1u64, 2] {
+                for table in 0..3u64 {
+                    for (si, sc) in schedules.iter().enumerate() {
+                        if tier == Tier::Quick && (si % 3 != 0 || (interval == 5_000 && table != 1)) {
+                            continue;
+                        }
+                        for explicit in [json!([300, 5_300, 20_300]), json!([300, 350, 9_000, 9_050])] {
+                            u.push(json!({"kind":"run","interval_ms":interval,"jitter_ms":0,"step_ms":1_000,"max_ms":3_000,"cap":cap,"table":table,"schedule":sc,"horizon_s": if interval == 1_000 { 70 } else { 120 },"explicit_at_ms":explicit}));
                         }
                     }
                 }
